@@ -985,6 +985,11 @@ def call_method(it, recv, name, args, kwargs, node, fr):
     from . import imgdom as _img
     if isinstance(recv, _img.Filtered) and name in ("astype", "copy", "view"):
         it.record("call", "filtered." + name, [recv] + args, dict(kwargs), node)
+        if name == "astype" and args and _runtime_dtype(args[0]):
+            c_ = _img.Filtered(recv.src, recv.gain, recv.axes, recv.transformed, recv.real)
+            c_.cast = to_term(args[0])  # converted to a type only known at run time (e.g. the input's): may truncate
+            c_.cast_node = node
+            return c_
         return recv
     raise Unsupported(f"method .{name} on {type(recv).__name__}", node)
 
